@@ -131,6 +131,12 @@ class Adapter:
         return {'steps': 1, 'div': [{'kind': 'timeout', 'action': 'RoundTrip', 'component': 'timeout', 'features': [],
                                      'case': {'lang': case['lang']}, 'adapter': 'harness.replay_roundtrip'}]}
 
+    @staticmethod
+    def _write(content, path):
+        with open(path, 'w', encoding='utf-8') as f:
+            f.write(content)
+        return path
+
     def run_case(self, case):
         from maltoolbox.model import Model
         lang = case['lang']
@@ -221,6 +227,33 @@ class Adapter:
                 if content2 != content:
                     div('resave_differs', {'first': content[:300], 'second': content2[:300]})
                     break
+                # the loaded model is a model like any other (ModelSM state): one more attacker and one more asset added
+                # to it get ids that are not in use, and everything survives the next round trip
+                if fmt == 'json':
+                    try:
+                        from maltoolbox.model import AttackerAttachment
+                        m4 = Model.load_from_file(self._write(content, path), ctx.factory)
+                        os.unlink(path)
+                        t4 = AttackerAttachment()
+                        m4.add_attacker(t4)
+                        a4 = getattr(ctx.ns, str(m4.assets[0].type))() if m4.assets else None
+                        if a4 is not None:
+                            m4.add_asset(a4)
+                        n_atk, n_assets = len(m4.attackers), len(m4.assets)
+                        if len({t.id for t in m4.attackers}) != n_atk or len({int(a.id) for a in m4.assets}) != n_assets \
+                                or len({str(a.name) for a in m4.assets}) != n_assets:
+                            div('loaded_then_add_ids_clash', {'attacker_ids': [t.id for t in m4.attackers],
+                                                             'asset_ids': [int(a.id) for a in m4.assets]})
+                            break
+                        m4.save_to_file(path)
+                        m5 = Model.load_from_file(path, ctx.factory)
+                        os.unlink(path)
+                        if len(m5.attackers) != n_atk or len(m5.assets) != n_assets:
+                            div('loaded_then_add_lost_on_next_roundtrip', {'attackers': [n_atk, len(m5.attackers)], 'assets': [n_assets, len(m5.assets)]})
+                            break
+                    except Exception as e:
+                        div('loaded_then_add_raises', {'error': repr(e)[:300]})
+                        break
                 # hand-written variants of the same file: permuted asset order, type-only shorthand
                 d = m._to_dict()
                 d = json.loads(json.dumps(d, default=lambda o: o.as_dict() if hasattr(o, 'as_dict') else str(o)))
